@@ -2,6 +2,7 @@ import Genshi.Wire
 import Genshi.WireCore
 import Genshi.Model.San
 import Genshi.Model.SanSpec
+import Genshi.Model.Reader
 namespace Driver.C06
 open Genshi Genshi.San Genshi.Sexp
 
@@ -25,6 +26,16 @@ def res {α} (f : α → Sexp) : Except Err α → Sexp
   | .ok a => .list [.atom "ok", f a]
   | .error e => .list [.atom "err", .atom (errName e)]
 
+/-- a raw token of C08's spec-side tokenizer (`Genshi.Reader.tokens`), as the re-parse theorems of
+    C06 speak of it -/
+def tokSexp : Genshi.Reader.Tok → Sexp
+  | .start n a sc => .list [.atom "S", .str n, .list (a.map fun p => .list [.str p.1, optStr p.2]), ofBool sc]
+  | .end_ n => .list [.atom "E", .str n]
+  | .text t => .list [.atom "T", .str t]
+  | .comment t => .list [.atom "C", .str t]
+  | .pi t => .list [.atom "PI", .str t]
+  | .doctype t => .list [.atom "DT", .str t]
+
 def handle : List Sexp → Option Sexp
   | [.atom "filter", cfg, evs] => do
       let cfg ← cfg? cfg; let s ← streamOfSexp? evs
@@ -36,6 +47,18 @@ def handle : List Sexp → Option Sexp
       let cfg ← cfg? cfg
       pure (ofBool (isSafeUri cfg t))
   | [.atom "ent", .str t] => some (res .str (stripentities t))
+  -- the helpers of sanitize_css one by one (wave 4)
+  | [.atom "unesc", .str t] => some (res .str (replaceUnicodeEscapes t))
+  | [.atom "nocomm", .str t] => some (.str (stripCssComments t))
+  | [.atom "propok", cfg, .str pn, .str v] => do
+      let cfg ← cfg? cfg
+      pure (ofBool (isSafeCss cfg pn v))
+  | [.atom "refs", .str t] => some (res .str (stripRefs t))
+  -- the html-mode reader the re-parse theorems compose with, on a rendered DOCTYPE (wave 4)
+  | [.atom "htoks", .str t] =>
+      match Genshi.Reader.tokens false t with
+      | some ts => some (.list (ts.map tokSexp))
+      | none => some (.atom "error")
   | [.atom "elem", cfg, t, a] => do
       let cfg ← cfg? cfg; let t ← QName.ofSexp? t; let a ← attrsOfSexp? a
       pure (ofBool (isSafeElem cfg t a))
